@@ -152,9 +152,9 @@ Proof.
     + now rewrite cfg_fmp4WriteSample.
   - destruct (negb (tk_firstRA t) && negb (a_ra a)); [exact H1|]. now rewrite cfg_fmp4WriteSample.
   - destruct (negb (tk_firstRA t) && negb (a_ra a)); [exact H1|]. now rewrite cfg_fmp4WriteSample.
-  - now rewrite cfg_fmp4WriteSample.
-  - now rewrite cfg_fmp4WriteSample.
-  - now rewrite cfg_fmp4WriteSample.
+  - destruct (negb (tk_firstRA t) && negb (a_ra a)); [exact H1|]. now rewrite cfg_fmp4WriteSample.
+  - destruct (negb (tk_firstRA t) && negb (a_ra a)); [exact H1|]. now rewrite cfg_fmp4WriteSample.
+  - destruct (negb (tk_firstRA t) && negb (a_ra a)); [exact H1|]. now rewrite cfg_fmp4WriteSample.
 Qed.
 
 Lemma cfg_write_audio_units units : forall m ti k rate srate i pts ntp,
@@ -201,9 +201,9 @@ Qed.
    mux_step and mux_run. *)
 Section Traverse.
   Variable GG : mstate -> Prop.
-  Hypothesis H_frame : forall m tracks pending sdurs adj freeze paths errs,
+  Hypothesis H_frame : forall m tracks pending sdurs adj freeze errs,
     GG m -> GG {| m_cfg := m_cfg m; m_tracks := tracks; m_streams := m_streams m; m_pending := pending;
-                  m_sdurs := sdurs; m_adj := adj; m_freeze := freeze; m_paths := paths; m_errs := errs |}.
+                  m_sdurs := sdurs; m_adj := adj; m_freeze := freeze; m_paths := m_paths m; m_errs := errs |}.
   Hypothesis H_create : forall m d ntp, GG m -> GG (createFirstSegment m d ntp).
   Hypothesis H_rotp : forall m si d, GG m -> GG (stream_rotateParts m si d true).
   Hypothesis H_rots : forall m si d ntp f, GG m -> GG (stream_rotateSegments m si d ntp f).
@@ -306,9 +306,9 @@ Section Traverse.
       + apply T_fmp4WriteSample. exact H2.
     - destruct (negb (tk_firstRA t) && negb (a_ra a)); [exact H1|]. apply T_fmp4WriteSample. exact H2.
     - destruct (negb (tk_firstRA t) && negb (a_ra a)); [exact H1|]. apply T_fmp4WriteSample. exact H2.
-    - apply T_fmp4WriteSample. exact H1.
-    - apply T_fmp4WriteSample. exact H1.
-    - apply T_fmp4WriteSample. exact H1.
+    - destruct (negb (tk_firstRA t) && negb (a_ra a)); [exact H1|]. apply T_fmp4WriteSample. exact H2.
+    - destruct (negb (tk_firstRA t) && negb (a_ra a)); [exact H1|]. apply T_fmp4WriteSample. exact H2.
+    - destruct (negb (tk_firstRA t) && negb (a_ra a)); [exact H1|]. apply T_fmp4WriteSample. exact H2.
   Qed.
 
   Lemma T_write_audio_units units : forall m ti k rate srate i pts ntp,
